@@ -403,7 +403,7 @@ OBLIGATIONS = [
        functions=("odc.geo.gridspec.GridSpec.pt2idx", "odc.geo.math.Bin1D.bin"), **B),
     Ob("A5_idx_bounds", h_idx_bounds, tiered(CFG_Q, CFG_T), descr="idx_bounds returns exactly the tiles overlapping the box (contacts within 1e-8 excluded)",
        functions=("odc.geo.gridspec.GridSpec.idx_bounds",), **B),
-    Ob("A5_tiles_iter", h_tiles_iter, tiered(CFG_Q[:2], CFG_T[:4]), descr="tiles(bbox) enumerates exactly the idx_bounds range with the matching GeoBoxes (boxes up to one tile wide, case split)",
+    Ob("A5_tiles_iter", h_tiles_iter, tiered([CFG_Q[0], CFG_Q[2], CFG_Q[3]], CFG_T[:5] + CFG_T[-2:]), descr="tiles(bbox) enumerates exactly the idx_bounds range with the matching GeoBoxes (boxes up to one tile wide, case split)",
        functions=("odc.geo.gridspec.GridSpec.tiles",), bounds="query box at most one tile wide near the origin (<= 2x2 tiles by case split)", setup=setup),
     Ob("A9_polygon_query", h_polygon_query, tiered([dict(CFG_Q[0], nrect=2, arrangement=a, rows=1) for a in ("right", "overlapping")] + [dict(CFG_Q[0], nrect=2, arrangement="right", rows=1, warm_cache=True)], [dict(CFG_Q[0], nrect=2, arrangement="right", rows=1, warm_cache=True)] + [dict(c, nrect=1) for c in CFG_T[:4]] + [dict(c, nrect=2, arrangement=a) for c in CFG_T[:4] for a in ("right", "above", "diagonal", "overlapping")]),
        descr="tiles_from_geopolygon with a (multi-part) stand-in geometry: every tile meeting a part in positive area is returned, no tile apart from every part is (tiles of the bounding box between the parts are not)",
